@@ -72,6 +72,16 @@ fn tick(c: C, n: u64) {
     CV[c as usize].fetch_add(n, AtOrd::Relaxed);
 }
 
+/// true (and the run is marked as capped) when the wall budget of the tier is used up
+fn out_of_time(run: &Run) -> bool {
+    if run.over_budget() {
+        run.cap("wall budget of the tier exhausted before the enumeration was complete");
+        true
+    } else {
+        false
+    }
+}
+
 fn flush(run: &Run) {
     for (i, name) in CN.iter().enumerate() {
         let v = CV[i].swap(0, AtOrd::Relaxed);
@@ -908,6 +918,9 @@ fn for_each_poly<K: RefRing>(run: &Run, monos: &[Exp], coeffs: &[K], t: usize, f
         }
     }
     run.par_for(tasks.len(), |x| {
+        if out_of_time(run) {
+            return;
+        }
         let mut g = |p: RP<K>| f(&p);
         match tasks[x] {
             (i, None) => {
@@ -973,7 +986,8 @@ fn axes(nv: usize, signed: bool, b: BoxKind, wide: bool) -> Vec<Vec<i64>> {
 }
 
 /// special partners / history alphabet
-fn specials<K: RefRing>(nv: usize, signed: bool, max_terms: usize) -> Vec<RP<K>> {
+/// `core` = the subset used as partners of the whole enumeration A in the quick tier
+fn specials<K: RefRing>(nv: usize, signed: bool, max_terms: usize, core: bool) -> Vec<RP<K>> {
     let o: Exp = vec![0; nv];
     let unit = |i: usize, d: i64| -> Exp {
         let mut e = vec![0; nv];
@@ -983,31 +997,31 @@ fn specials<K: RefRing>(nv: usize, signed: bool, max_terms: usize) -> Vec<RP<K>>
     let k = |i: i64| K::from_i64(i);
     let x0 = unit(0, 1);
     let xl = unit(nv - 1, 1);
-    let mut v: Vec<RP<K>> = vec![
-        RP::zero(),
-        RP::from_terms([(o.clone(), k(1))]),
-        RP::from_terms([(o.clone(), k(-1))]),
-        RP::from_terms([(o.clone(), k(2))]),
-        RP::from_terms([(x0.clone(), k(1))]),
-        RP::from_terms([(x0.clone(), k(-1))]),
-        RP::from_terms([(o.clone(), k(1)), (x0.clone(), k(1))]),
-        RP::from_terms([(o.clone(), k(1)), (x0.clone(), k(-1))]),
-        RP::from_terms([(unit(0, 2), k(2))]),
+    let mut v: Vec<(bool, RP<K>)> = vec![
+        (true, RP::zero()),
+        (true, RP::from_terms([(o.clone(), k(1))])),
+        (false, RP::from_terms([(o.clone(), k(-1))])),
+        (true, RP::from_terms([(o.clone(), k(2))])),
+        (true, RP::from_terms([(x0.clone(), k(1))])),
+        (false, RP::from_terms([(x0.clone(), k(-1))])),
+        (false, RP::from_terms([(o.clone(), k(1)), (x0.clone(), k(1))])),
+        (true, RP::from_terms([(o.clone(), k(1)), (x0.clone(), k(-1))])),
+        (false, RP::from_terms([(unit(0, 2), k(2))])),
     ];
     if nv > 1 {
-        v.push(RP::from_terms([(x0.clone(), k(1)), (xl.clone(), k(1))]));
-        v.push(RP::from_terms([(x0.clone(), k(1)), (xl.clone(), k(-1))]));
-        v.push(RP::from_terms([(xl.clone(), k(1))]));
+        v.push((true, RP::from_terms([(x0.clone(), k(1)), (xl.clone(), k(1))])));
+        v.push((false, RP::from_terms([(x0.clone(), k(1)), (xl.clone(), k(-1))])));
+        v.push((false, RP::from_terms([(xl.clone(), k(1))])));
     } else {
-        v.push(RP::from_terms([(unit(0, 2), k(1)), (o.clone(), k(-1))]));
+        v.push((true, RP::from_terms([(unit(0, 2), k(1)), (o.clone(), k(-1))])));
     }
     if signed {
-        v.push(RP::from_terms([(unit(0, -1), k(1))]));
-        v.push(RP::from_terms([(unit(nv - 1, -1), k(1)), (x0.clone(), k(1))]));
+        v.push((true, RP::from_terms([(unit(0, -1), k(1))])));
+        v.push((false, RP::from_terms([(unit(nv - 1, -1), k(1)), (x0.clone(), k(1))])));
     }
     let mut out: Vec<RP<K>> = vec![];
-    for p in v {
-        if p.nterms() <= max_terms && !out.contains(&p) {
+    for (c, p) in v {
+        if p.nterms() <= max_terms && !out.contains(&p) && (c || !core) {
             out.push(p);
         }
     }
@@ -1023,6 +1037,7 @@ struct Budget {
     pair_budget: u128,
     hist_depth: usize,
     hist_states: u64,
+    all_specials: bool,
 }
 
 fn lib_pair<P: Sut>(r: &RP<KRef<P>>) -> Option<(P, RP<KRef<P>>)> {
@@ -1040,8 +1055,12 @@ where
     let scalars: Vec<(P::C, KRef<P>)> = KRef::<P>::scalars().into_iter().map(|k| (P::C::from_ref(&k), k)).collect();
     let t_max = bud.terms.min(P::MAX_TERMS);
     let full = box_monos(&axes(nv, signed, BoxKind::Full, false));
-    let spec: Vec<(P, RP<KRef<P>>)> = specials::<KRef<P>>(nv, signed, P::MAX_TERMS).iter().filter_map(lib_pair::<P>).collect();
+    let spec: Vec<(P, RP<KRef<P>>)> = specials::<KRef<P>>(nv, signed, P::MAX_TERMS, false).iter().filter_map(lib_pair::<P>).collect();
+    // partners of the whole enumeration A: the core specials in the quick tier, all of them in the thorough tier
+    let spec_a: Vec<(P, RP<KRef<P>>)> = specials::<KRef<P>>(nv, signed, P::MAX_TERMS, !bud.all_specials).iter().filter_map(lib_pair::<P>).collect();
 
+    let clock = std::time::Instant::now();
+    let mut laps: Vec<f64> = vec![];
     // ---- U + S ---------------------------------------------------------------------------------
     let n_a = count_polys(full.len(), coeffs.len(), t_max);
     for_each_poly(run, &full, &coeffs, t_max, &|r: &RP<KRef<P>>| {
@@ -1071,15 +1090,19 @@ where
                 }
             }
         }
-        // special partners, both orders
-        for s in &spec {
+        // special partners, both orders (polynomials of A with at most two terms)
+        if r.nterms() > 2 {
+            return;
+        }
+        for s in &spec_a {
             for &op in Px::<P>::ops() {
-                px.binary(op, &[3, 5], &a, s);
-                px.binary(op, &[3, 5], s, &a);
+                px.binary(op, &[5], &a, s);
+                px.binary(op, &[5], s, &a);
             }
         }
     });
 
+    laps.push(clock.elapsed().as_secs_f64());
     // ---- P: all ordered pairs of the pair alphabet ----------------------------------------------
     let pm = KRef::<P>::coeffs_pm();
     let ladder: Vec<(BoxKind, usize, bool)> = vec![
@@ -1107,6 +1130,9 @@ where
     let p_polys: Vec<(P, RP<KRef<P>>)> = enum_polys(&p_monos, if rung.2 { &coeffs } else { &pm }, rung.1).iter().filter_map(lib_pair::<P>).collect();
     let all_forms = [0usize, 1, 2, 3, 4, 5];
     run.par_for(p_polys.len(), |i| {
+        if out_of_time(run) {
+            return;
+        }
         let a = &p_polys[i];
         for b in &p_polys {
             tick(C::Pairs, 1);
@@ -1122,6 +1148,7 @@ where
         flush(run);
     });
 
+    laps.push(clock.elapsed().as_secs_f64());
     // ---- T: ring axioms over all triples of a small alphabet --------------------------------------
     let mut t_monos: Vec<Exp> = vec![vec![0; nv]];
     {
@@ -1154,6 +1181,9 @@ where
         }
     };
     run.par_for(nt * nt, |ij| {
+        if out_of_time(run) {
+            return;
+        }
         let (a, b) = (&t_polys[ij / nt], &t_polys[ij % nt]);
         let ab_s = px.binary(Op::Add, &one, a, b);
         let ba_s = px.binary(Op::Add, &one, b, a);
@@ -1208,11 +1238,15 @@ where
         flush(run);
     });
 
+    laps.push(clock.elapsed().as_secs_f64());
     // ---- H: histories ---------------------------------------------------------------------------
     let init: Vec<HSt<P>> = [RP::zero(), RP::constant(nv, KRef::<P>::one())].iter().filter_map(lib_pair::<P>).map(|(lib, r)| HSt { r, lib }).collect();
     let hsc: Vec<&(P::C, KRef<P>)> = scalars.iter().filter(|s| !s.1.is_one()).collect();
     let succ = |s: &HSt<P>, _d: usize| -> Vec<HSt<P>> {
         let mut out = vec![];
+        if out_of_time(run) {
+            return out;
+        }
         let here = (s.lib.clone(), s.r.clone());
         for b in &spec {
             for &op in Px::<P>::ops() {
@@ -1254,14 +1288,17 @@ where
     let max_terms_seen = seen.iter().map(|s| s.r.nterms()).max().unwrap_or(0);
     drop(seen);
     flush(run);
+    laps.push(clock.elapsed().as_secs_f64());
     run.add("types", 1);
     json!({
         "type": px.name,
         "A": {"monomials": full.len(), "coefficients": coeffs.len(), "max_terms": t_max, "polynomials": n_a.to_string()},
-        "special_partners": spec.len(),
+        "special_partners_of_A": spec_a.len(),
+        "history_alphabet": spec.len(),
         "pair_alphabet": {"box": format!("{:?}", rung.0), "max_terms": rung.1, "coefficients": if rung.2 { coeffs.len() } else { pm.len() }, "polynomials": p_polys.len(), "ordered_pairs": p_polys.len() * p_polys.len()},
         "triple_alphabet": nt,
         "history": {"depth": bud.hist_depth, "states": st.states, "transitions": st.transitions, "states_per_depth": st.states_per_depth, "max_terms_of_a_state": max_terms_seen},
+        "layer_wall_s_cumulative_U+S_P_T_H": laps.iter().map(|x| (x * 100.0).round() / 100.0).collect::<Vec<_>>(),
         "_states": st.states,
         "_transitions": st.transitions,
     })
@@ -1378,6 +1415,9 @@ fn mono_layer<X: MonoX>(run: &Run, wide: bool) -> Value {
     let prod = &prod;
     let monos_r = &monos;
     run.par_for(n, |i| {
+        if out_of_time(run) {
+            return;
+        }
         for j in 0..n {
             for k in 0..n {
                 tick(C::MonoTriples, 1);
@@ -1445,6 +1485,9 @@ macro_rules! eval_layer {
         let polys: Vec<(P, RP<Z>)> = enum_polys(&small, &coeffs, 2).iter().filter_map(lib_pair::<P>).collect();
         let vals: Vec<Vec<i64>> = polys.iter().map(|(p, _)| pts.iter().map(|pt| ev(p, pt)).collect()).collect();
         run.par_for(polys.len(), |i| {
+            if out_of_time(run) {
+                return;
+            }
             for j in 0..polys.len() {
                 let (a, b) = (&polys[i], &polys[j]);
                 let Ok((s, m)) = catch(|| (&a.0 + &b.0, &a.0 * &b.0)) else { continue };
@@ -1476,9 +1519,10 @@ fn main() {
     let th = run.thorough();
     let bud = Budget {
         terms: if th { 3 } else { 2 },
-        pair_budget: if th { 6_000_000 } else { 300_000 },
+        pair_budget: if th { 4_000_000 } else { 200_000 },
         hist_depth: if th { 4 } else { 3 },
         hist_states: 1_500_000,
+        all_specials: th,
     };
     // the (type, ring) instances, monomial kinds and eval instances are independent jobs; a few of them
     // run concurrently (each one parallelises its own enumeration with `par_for`)
